@@ -12,7 +12,7 @@ def run_all():
     logging.disable(logging.CRITICAL)
     from mc.props import c18
 
-    for name in ("P0", "P1", "P2", "Q1", "Q2", "X0", "X1", "X2"):
+    for name in ("P0", "P1", "P2", "Q1", "Q2", "X0", "X1", "X2", "B0", "B1"):
         c18.run_pipeline(name)
     # the PANDORA_NUMBA_PARALLEL=False variant has its own cache directory (read at import time)
     if os.environ.get("PANDORA_NUMBA_PARALLEL", "True") == "True" and not os.environ.get("MC_WARM_CHILD"):
